@@ -111,6 +111,12 @@ def lastPulsePhase (c : ChanState) : Rat :=
   | some (_, p) => p.phase
   | none => 0
 
+/-- Rise time of the modulation in effect: the EOM's in EOM mode, the channel's otherwise.
+A pulse's fall time in the current mode is at most twice this (repair of F32: the scans
+used the channel's own rise time even in EOM mode). -/
+def modeRise (c : ChanState) : Nat :=
+  if c.inEomMode then (match c.cfg.eom with | some e => e.rise | none => c.cfg.rise) else c.cfg.rise
+
 /-- Loop body of `get_duration(include_fall_time=True)` over the reversed slots. -/
 def durFallAux (rise2 : Nat) (inEom : Bool) (temp : Int) : List Slot → Int
   | [] => temp
@@ -125,7 +131,7 @@ def getDuration (c : ChanState) (includeFall : Bool) : Int :=
   | [] => 0
   | op :: rest =>
     if !includeFall then op.tf
-    else durFallAux (2 * c.cfg.rise) c.inEomMode op.tf (op :: rest)
+    else durFallAux (2 * c.modeRise) c.inEomMode op.tf (op :: rest)
 
 def adjust (c : ChanState) (d : Nat) : Except Err Nat := adjustDuration c.cfg d
 
@@ -250,7 +256,7 @@ def findAddDelayChan (rise2 : Nat) (inEom : Bool) (myTargets : List Nat) (waitAl
 /-- `_Schedule._find_add_delay`: `others` are the other channels in declaration order. -/
 def findAddDelay (others : List ChanState) (myTargets : List Nat) (waitAll : Bool) (t0 : Int) : Int :=
   others.foldl
-    (fun cur ch => findAddDelayChan (2 * ch.cfg.rise) ch.inEomMode myTargets waitAll cur ch.slots.reverse)
+    (fun cur ch => findAddDelayChan (2 * ch.modeRise) ch.inEomMode myTargets waitAll cur ch.slots.reverse)
     t0
 
 /-- Phase-drift parameters (`_PhaseDriftParams`): rate in rad/µs, start in ns. -/
